@@ -183,10 +183,14 @@ impl T {
             t => t.clone(),
         }
     }
-    /// Encode compounds as tagged lists (C20 twin): `T(a,b)` → `["#T", a, b]`.
+    /// C20 twin encoding: every structure becomes a list with a constant tag in head position,
+    /// `T(a,b)` -> `["#T", a, b]`, `[h | t]` -> `["#.", h, t]`, `[]` -> `"#nil"`. Because no
+    /// variable ever sits in head position and every tag has a fixed length, two encoded terms
+    /// unify exactly when the original terms do (the encoding is a homomorphism).
     pub fn tagged(&self) -> T {
         match self {
-            T::Cons(h, t) => T::cons(h.tagged(), t.tagged()),
+            T::Nil => T::s("#nil"),
+            T::Cons(h, t) => T::list(vec![T::s("#."), h.tagged(), t.tagged()]),
             T::Comp(n, fs) => {
                 let mut items = vec![T::Str(format!("#{}", n))];
                 items.extend(fs.iter().map(|f| f.tagged()));
